@@ -170,12 +170,10 @@ c08_harness! { fn c08_async_export_scalar_result_through_task_return_once() {
 
 // 2. async export, string: the bytes arrive unchanged and the result string is handed to task.return as (pointer, length)
 //    of exactly the returned bytes, once.
-c08_harness! { fn c08_async_export_string_same_bytes_as_sync() {
-    #[cfg(kani)]
+#[cfg(kani)]
+fn export_string(n: usize) {
     {
         reset();
-        let n: usize = kani::any();
-        kani::assume(n <= 2);
         let b: [u8; 2] = kani::any();
         kani::assume(b[0] < 0x80 && b[1] < 0x80);
         unsafe {
@@ -193,7 +191,11 @@ c08_harness! { fn c08_async_export_string_same_bytes_as_sync() {
             vassert!(code == 0 && h().task_cancels == 0);
         }
     }
-}}
+}
+// the string length is fixed per harness (a symbolic length exhausts CBMC's memory here; contents stay symbolic)
+c08_harness! { fn c08_async_export_string_len0_same_bytes_as_sync() { #[cfg(kani)] export_string(0); }}
+c08_harness! { fn c08_async_export_string_len1_same_bytes_as_sync() { #[cfg(kani)] export_string(1); }}
+c08_harness! { fn c08_async_export_string_len2_same_bytes_as_sync() { #[cfg(kani)] export_string(2); }}
 
 // 3. async import that returns at once: one [async-lower] call with the canonically lowered parameter, the result lifted
 //    from the results area, no subtask handle to drop or cancel.
@@ -224,12 +226,10 @@ c08_harness! { fn c08_async_import_scalar_immediate_return() {
 
 // 4. async import with a string parameter and result that returns at once: the lowered parameter bytes are alive when the
 //    callee runs (the mock host reads them during the call), the result string is lifted from (pointer, length).
-c08_harness! { fn c08_async_import_string_params_alive_during_call() {
-    #[cfg(kani)]
+#[cfg(kani)]
+fn import_string(n: usize) {
     {
         reset();
-        let n: usize = kani::any();
-        kani::assume(n <= 2);
         let b: [u8; 2] = kani::any();
         kani::assume(b[0] < 0x80 && b[1] < 0x80);
         unsafe {
@@ -253,4 +253,7 @@ c08_harness! { fn c08_async_import_string_params_alive_during_call() {
             }
         }
     }
-}}
+}
+c08_harness! { fn c08_async_import_string_len0_params_alive_during_call() { #[cfg(kani)] import_string(0); }}
+c08_harness! { fn c08_async_import_string_len1_params_alive_during_call() { #[cfg(kani)] import_string(1); }}
+c08_harness! { fn c08_async_import_string_len2_params_alive_during_call() { #[cfg(kani)] import_string(2); }}
